@@ -101,7 +101,9 @@ def run(ctx):
         if quick:
             args += ["--nuni", "2000", "--nmf", "1000", "--reps", "2"]
         else:
-            args += ["--nuni", "45000", "--nmf", "20000", "--reps", "3"]
+            args += ["--nuni", "30000", "--nmf", "15000", "--reps", "3"]
+        if os.environ.get("C17_NUNI"):      # development aid (mutation runs)
+            args[args.index("--nuni") + 1] = os.environ["C17_NUNI"]
     vlib.run(args, timeout=3000)
     cases = open(os.path.join(ctx.work, "cases.txt")).read().split("\n")[:-1]
     impl = open(os.path.join(ctx.work, "impl.txt")).read().split("\n")[:-1]
